@@ -29,6 +29,17 @@ class Mod(tokcursor.CursorMod):
         self.on_consume = self._on_consume
         self.events = []
 
+    _nl = None
+
+    def newline_texts(self):
+        """characters for which the deb822 lexer yields a NEWLINE token (from the extracted table)"""
+        if Mod._nl is None:
+            import lexer
+            tab = lexer.extract(self.facts)
+            chars = {c["char"] for c in tab["cells"] if c.get("kind") == "NEWLINE" and c.get("char") is not None}
+            Mod._nl = chars or {"?"}
+        return Mod._nl
+
     # ---- role based expectations
     def _on_consume(self, mod, I, st, k, role, sp):
         if not self.structure:
@@ -122,6 +133,10 @@ class Mod(tokcursor.CursorMod):
                 elif add[0] == "abs" and add[1] in ("toktext", "toktext-peek"):
                     k = add[2]
                     ev = "N" if k == "NEWLINE" else ("V" if k == "VALUE" else "X:" + k)
+                    if k == "NEWLINE" and self.structure and self.newline_texts() != {"\n"}:
+                        # the lexer also ends lines at other characters (the token text is that character): copying the
+                        # token into the value makes the result depend on the input's line terminator
+                        self.report("L-structure/value", "the text of a NEWLINE token (one of %s according to the lexer table) is copied into a field value; value lines must be joined with LF" % sorted(self.newline_texts()), "", sp)
                 else:
                     ev = "X:" + str(add)[:30]
                 ns, s2 = self.step_value(I, st, state, ev, add, sp)
